@@ -21,7 +21,7 @@ import numpy as np
 from harness.core import exc_class
 from harness.props.c08 import gen_tree, fresh_names
 from harness.props import c12_batch                      # part: genes_at_a_time > 1 (Model/SelectionK.v)
-from harness.props import c12_downsample                 # part: downsampled table, select_parent, np.argsort pops (tags 1260-1263)
+from harness.props import c12_downsample                 # part: downsampled table, select_parent, np.argsort pops (tags 1260-1266)
 
 
 # ------------------------------------------------------------------ generators
@@ -716,6 +716,7 @@ def _replay(ctx, rec):
         import sys
         c12_downsample.function_part(ctx, sys.modules[__name__], [(world, tree, ref)])
         c12_downsample.stage_part(ctx, sys.modules[__name__], [(world, tree, ref)])
+        c12_downsample.batch_part(ctx, sys.modules[__name__], [(world, tree, ref)], all_k=True)
     elif rec.get('kind') == 'stage':
         stage_level(ctx, [(world, tree, ref)], n_configs=12)
     else:
